@@ -35,6 +35,12 @@ fn main() {
         "rngchild" => suites::rng::drive(&mut t, &tier, seed, true),
         "sm2codec" => suites::sm2::drive_codec(&mut t, &tier, seed),
         "sm2ec" => suites::sm2::drive_ec(&mut t, &tier, seed),
+        "sm9hash" => suites::sm9::drive_hash(&mut t, &tier, seed, plan),
+        "sm9sig" => suites::sm9::drive_sign(&mut t, &tier, seed, plan),
+        "sm9enc" => suites::sm9::drive_encrypt(&mut t, &tier, seed, plan),
+        "sm9kex" => suites::sm9::drive_kex(&mut t, &tier, seed),
+        "sm9pair" => suites::sm9::drive_pairing(&mut t, &tier, seed),
+        "sm9arith" => suites::sm9::drive_arith(&mut t, &tier, seed),
         "sm4blk" => suites::sm4::drive_block(&mut t, &tier, seed, plan),
         "sm4mode" => suites::sm4::drive_modes(&mut t, &tier, seed),
         _ => {
